@@ -213,6 +213,11 @@ func c11Run(r *runCtx, id string, f []string) {
 		spawn(func() {
 			ver++
 			_ = os.WriteFile(filepath.Join(dir, "p.mtail"), []byte(fmt.Sprintf(c11Prog, ver)), 0o644)
+			if ver%3 == 0 && ver < 90 {
+				// a program that is new to the store: its metrics are inserted under new names
+				extra := fmt.Sprintf("counter extra%d\n/^(\\w+) / {\n  extra%d++\n}\n", ver, ver)
+				_ = os.WriteFile(filepath.Join(dir, fmt.Sprintf("q%d.mtail", ver)), []byte(extra), 0o644)
+			}
 			_ = rt.LoadAllPrograms()
 			time.Sleep(200 * time.Microsecond)
 		})
